@@ -24,6 +24,22 @@ func genC06(seed uint64, run int, tier string) Scenario {
 		idle := OpSpec{Kind: "idle", IdleUS: sc.ReadDelayUS * int64(between(r, 1, 20))}
 		sc.Ops = append(sc.Ops[:i:i], append([]OpSpec{idle}, sc.Ops[i:]...)...)
 	}
+	if sc.Driver == "generic" && r.IntN(4) == 0 {
+		// the session ends with unsolicited output (a log line and the redrawn prompt) that nobody
+		// reads, an idle period, and a GetPrompt: a loss during that idle period finds a complete
+		// prompt still queued
+		p := sc.Dev.Modes[0].Prompt
+		for _, m := range sc.Dev.Modes {
+			if m.Name == sc.Dev.Start {
+				p = m.Prompt
+			}
+		}
+		sc.Ops = append(sc.Ops,
+			OpSpec{Kind: "inject", Cmd: sc.Dev.NL + "%LINK-5-UPDOWN: link up" + sc.Dev.NL + p},
+			OpSpec{Kind: "idle", IdleUS: sc.ReadDelayUS*int64(between(r, 10, 30)) + int64(sc.Net.LatMax/time.Microsecond)*4},
+			OpSpec{Kind: "getprompt"})
+		sc.Class += "/unread"
+	}
 	sc.Ops = append(sc.Ops, OpSpec{Kind: "close"})
 	sc.F.DropAfterEOF = r.IntN(2) == 0
 	sc.F.QuietAfterWriteErr = r.IntN(2) == 0
@@ -63,6 +79,15 @@ func expandC06(base Scenario, res *Result, tier string) []Scenario {
 		mk("eof", k)
 		mk("readerr", k)
 	}
+	if n, ok := res.Extra["unread_at"]; ok {
+		// the loss right behind the unsolicited output, i.e. inside the idle period
+		k := 0
+		for _, c := range n {
+			k = k*10 + int(c-'0')
+		}
+		mk("eof", k)
+		mk("readerr", k)
+	}
 	w := 0
 	if n, ok := res.Extra["writes"]; ok {
 		for _, c := range n {
@@ -88,6 +113,11 @@ func runC06(env *Env, s Scenario) {
 	env.Context = sr.Summary
 	sc.BaseEmitted = sr.Tr.Emitted()
 	env.Res.Extra = map[string]string{"writes": itoa(len(sr.Tr.Writes))}
+	for i := range sc.Ops {
+		if sc.Ops[i].Kind == "inject" && i+1 < len(sr.Recs) && !sr.Recs[i+1].Skipped {
+			env.Res.Extra["unread_at"] = itoa(sr.Recs[i+1].EmittedAtEnd)
+		}
+	}
 	env.Res.Shape = sessionShape(sc)
 	faulted := sc.F.EOFAt >= 0 || sc.F.ErrAt >= 0 || sc.F.WriteErrAt >= 0
 	fired := sr.Tr.Faults()["eof"]+sr.Tr.Faults()["readerr"]+sr.Tr.Faults()["writeerr"] > 0
@@ -109,7 +139,7 @@ func runC06(env *Env, s Scenario) {
 	if !faulted {
 		for i := range sr.Recs {
 			rec, op := &sr.Recs[i], &sc.Ops[i]
-			if op.Kind == "close" || op.Kind == "idle" {
+			if op.Kind == "close" || op.Kind == "idle" || op.Kind == "inject" {
 				continue
 			}
 			if rec.Err != nil || rec.End-rec.Start > sc.EffTimeout(op)/4 {
@@ -140,7 +170,7 @@ func runC06(env *Env, s Scenario) {
 	lost := false
 	for i := range sr.Recs {
 		rec, op := &sr.Recs[i], &sc.Ops[i]
-		if op.Kind == "close" || op.Kind == "idle" || rec.Skipped || rec.Panicked {
+		if op.Kind == "close" || op.Kind == "idle" || op.Kind == "inject" || rec.Skipped || rec.Panicked {
 			continue
 		}
 		switch {
